@@ -247,6 +247,7 @@ class Impl:
         K = csr_matrix(K)
         B = csr_matrix(B)
         self.intact = True
+        self.kept = True
         if api in ("lb", "freq"):
             Kh, Bh = K.asformat(form).copy(), B.asformat(form).copy()
             try:
@@ -280,11 +281,16 @@ class Impl:
                     p.kM = B
                     p.calc_kM = lambda *a, **kw: B
             p.num_eigvalues = o["num"]
-            if api == "panel_lb":
-                p.lb(tol=0, sparse_solver=o["sparse"], silent=True)
-            else:
-                p.freq(atype=4, tol=0, sparse_solver=o["sparse"], silent=True, sort=o["sort"],
-                       reduced_dof=o["reduced"])
+            try:
+                if api == "panel_lb":
+                    p.lb(tol=0, sparse_solver=o["sparse"], silent=True)
+                else:
+                    p.freq(atype=4, tol=0, sparse_solver=o["sparse"], silent=True, sort=o["sort"],
+                           reduced_dof=o["reduced"])
+            finally:
+                # handed-kept: what earlier calls on this object handed out is still what it was
+                self.kept = all(ref.shape == cp.shape and ref.dtype == cp.dtype and ref.tobytes() == cp.tobytes()
+                                for ref, cp in getattr(p, "_ew_kept", []))
             return p.eigvals, p.eigvecs
         if api == "conecyl_lb":
             q = o["pos"]
@@ -317,16 +323,16 @@ def observe(impl, o, K, B, panel=None, form="csr"):
             vals, vecs = impl.call(o, K, B, panel=panel, form=form)
     except Exception as e:                                         # an exception is an event too
         return dict(exc=type(e).__name__, msg=str(e)[:200], nvals=0, nr=0, nc=0, vals=[], nzrows=[], res=[],
-                    peer=[], intact=getattr(impl, "intact", True)), None, None
+                    peer=[], intact=getattr(impl, "intact", True), kept=getattr(impl, "kept", True)), None, None
     vals = np.asarray(vals)
     vecs = np.asarray(vecs)
     if vals.ndim != 1 or vecs.ndim != 2:
         return dict(exc="BadShape", msg="%s %s" % (vals.shape, vecs.shape), nvals=0, nr=0, nc=0, vals=[],
-                    nzrows=[], res=[], peer=[], intact=getattr(impl, "intact", True)), None, None
+                    nzrows=[], res=[], peer=[], intact=getattr(impl, "intact", True), kept=getattr(impl, "kept", True)), None, None
     nz = np.nonzero(np.any(vecs != 0, axis=1))[0]
     obs = dict(exc="", nvals=int(vals.shape[0]), nr=int(vecs.shape[0]), nc=int(vecs.shape[1]),
                vals=[cplx(z) for z in vals], nzrows=[int(i) + 1 for i in nz], res=[], peer=[],
-               intact=getattr(impl, "intact", True))
+               intact=getattr(impl, "intact", True), kept=getattr(impl, "kept", True))
     return obs, vals, vecs
 
 
@@ -622,12 +628,30 @@ def _conecyl_worker(spec):
         if any(abs(float(x) - 1.0) < 1e-3 or abs(float(x) + 1.0) < 1e-6 for x in sp):
             excluded["reference load within tolerance of critical"] += 1
             continue
+        # The solver contract is probed on this pencil: when ARPACK's Cayley run does not converge here, ConeCyl.lb
+        # swallows that and answers with mode='buckling' garbage (KF_C05_ConeCylBucklingMode, listed; outside the
+        # regime the model admits it, inside the regime it would look like any other wrong answer) - not judged.
+        if K.shape[0] > 20 and not exc:
+            from scipy.sparse.linalg import eigsh
+            Kr, Br = K[act, :][:, act], B[act, :][:, act]
+            probe_ok = True
+            for _ in range(2):
+                try:
+                    with warnings.catch_warnings(), np.errstate(all="ignore"):
+                        warnings.simplefilter("ignore")
+                        eigsh(A=Br, k=min(num, len(act) - 1), which="SM", M=Kr, tol=0, sigma=1., mode="cayley")
+                except Exception:
+                    probe_ok = False
+                    break
+            if not probe_ok:
+                excluded["ARPACK broke down / did not converge (solver contract not met): probe on the ConeCyl pencil"] += 1
+                continue
         if exc:
-            obs = dict(exc=exc, msg=msg_, nvals=0, nr=0, nc=0, vals=[], nzrows=[], res=[], peer=[], intact=True)
+            obs = dict(exc=exc, msg=msg_, nvals=0, nr=0, nc=0, vals=[], nzrows=[], res=[], peer=[], intact=True, kept=True)
         else:
             nz = np.nonzero(np.any(vecs != 0, axis=1))[0]
             obs = dict(exc="", nvals=int(vals.shape[0]), nr=int(vecs.shape[0]), nc=int(vecs.shape[1]),
-                       vals=[cplx(z) for z in vals], nzrows=[int(i) + 1 for i in nz], res=[], peer=[], intact=True)
+                       vals=[cplx(z) for z in vals], nzrows=[int(i) + 1 for i in nz], res=[], peer=[], intact=True, kept=True)
         prob = dict(n=K.shape[0], cls=cls, sp=sp, s=Fraction(1))
         events.append(make_event(0, None, prob, o, K, B, g, pre=(obs, vals, vecs)))
     return events, excluded
@@ -744,7 +768,37 @@ def set_definition(p, d, uniform):
         p.plyts = [d["plyt"] for _ in d["stack"]]
         p.laminaprops = [tuple(d["laminaprop"]) for _ in d["stack"]]
 HISTORIES = ("fresh", "redef:stack", "redef:plyt", "redef:geometry", "redef:loads", "redef:orders", "redef:material",
-             "kT", "wrapper:loads")
+             "kT", "wrapper:loads", "redef:flags", "redef:flags")
+# boundary-condition study: edge flag sets (on top of the Panel defaults = ssss); a change moves the null pattern
+FLAG_SETS = (dict(),                                                       # ssss
+             dict(w1rx=0, w2rx=0, w1ry=0, w2ry=0),                         # cccc
+             dict(w1rx=0, w2rx=0),                                         # ccss
+             dict(u2ty=1, v2ty=1, w2ty=1, u2ry=1, v2ry=1, w2ry=1),          # one free edge
+             dict(u1tx=1, u2tx=1, v1tx=1, v2tx=1),                         # in-plane free on the x edges
+             dict(w1ry=0, w2ry=0, u1tx=1, u2tx=1))
+_FLAG_DEFAULTS = {}
+
+
+def set_flags(p, flags):
+    """all edge flags any flag set touches: the given value, else the Panel default"""
+    if not _FLAG_DEFAULTS:
+        from compmech.panel import Panel
+        q = Panel()
+        for fs in FLAG_SETS:
+            for k in fs:
+                _FLAG_DEFAULTS[k] = getattr(q, k)
+    for k, dv in _FLAG_DEFAULTS.items():
+        setattr(p, k, flags.get(k, dv))
+
+
+def keep_result(p):
+    """remember the arrays an earlier wrapper call handed out (reference + copy): they must be bitwise unchanged
+    after any later call on the same object"""
+    kept = getattr(p, "_ew_kept", [])
+    for a in (p.eigvals, p.eigvecs):
+        if isinstance(a, np.ndarray):
+            kept.append((a, a.copy()))
+    p._ew_kept = kept
 
 
 def perturbed_definition(d, kind):
@@ -760,6 +814,9 @@ def perturbed_definition(d, kind):
         q["Nxx"], q["Nyy"], q["Nxy"] = d["Nxx"] * 3 - 1.0, d["Nyy"] + 2.0, d["Nxy"] - 1.0
     elif kind == "orders":
         q["m"], q["n"] = d["m"] + 1, max(3, d["n"] - 1)
+    elif kind == "flags":
+        others = [f for f in FLAG_SETS if f != d["flags"]]
+        q["flags"] = dict(others[(len(d["stack"]) + d["m"] + d["n"]) % len(others)])
     elif kind == "material":
         lp = d["laminaprop"]
         q["laminaprop"] = (lp[0] * 0.5, lp[1] * 2, lp[2], lp[3] * 3, lp[4], lp[5])
@@ -779,18 +836,20 @@ def panel_with_history(d, hist, api, o, hseed):
         if hist.startswith("redef:"):
             q = perturbed_definition(d, hist[6:])
             p = build_panel(q, uniform=False)
-            try:            # the same request (and the matrix builders) under the other definition first
-                p.num_eigvalues = 3
+            try:            # the same request (same switch, same number of pairs) under the other definition first
+                p.num_eigvalues = int(o["num"])
                 if api == "panel_lb":
-                    p.lb(tol=0, sparse_solver=True, silent=True)
+                    p.lb(tol=0, sparse_solver=bool(o["sparse"]), silent=True)
                 else:
-                    p.freq(atype=4, tol=0, sparse_solver=True, silent=True)
+                    p.freq(atype=4, tol=0, sparse_solver=bool(o["sparse"]), silent=True, sort=bool(o["sort"]))
                     p.calc_kG0(silent=True)
+                keep_result(p)
             except Exception:
                 p.calc_k0(silent=True)
                 p.calc_kG0(silent=True)
                 p.calc_kM(silent=True)
             set_definition(p, d, uniform=False)
+            set_flags(p, d["flags"])
             return p
         p = build_panel(d)
         if hist == "kT":           # tangent matrices at a non-zero state (as a non-linear static run leaves them)
@@ -802,10 +861,12 @@ def panel_with_history(d, hist, api, o, hseed):
             q = perturbed_definition(d, "loads")
             for k in ("Nxx", "Nyy", "Nxy"):
                 setattr(p, k, q[k])
-            p.num_eigvalues = 4
+            p.num_eigvalues = int(o["num"])
             try:
                 p.lb(tol=0, sparse_solver=bool(o["sparse"]), silent=True)
+                keep_result(p)
                 p.freq(atype=3, tol=0, sparse_solver=True, silent=True)
+                keep_result(p)
             except Exception:
                 pass
             for k in ("Nxx", "Nyy", "Nxy"):
@@ -1116,7 +1177,8 @@ def run_family(prop, family, tier, seed, build, impl=None, skip_mc=False, max_la
             out.append(dict(api="lb", sparse=True, num=k1, sort=False, reduced=False, pos=0, tpow=-60))
             out.append(dict(api="lb", sparse=False, num=min(k1, 3), sort=False, reduced=False, pos=0, tpow=[60, -60][int(rs.randint(0, 2))]))
             if with_panel:
-                for sparse, h in ((True, "fresh"), (True, hist()), (True, hist()), (False, hist())):
+                for sparse, h in ((True, "fresh"), (True, "redef:flags"), (True, hist()),
+                                  (False, "redef:flags" if rs.rand() < 0.5 else hist())):
                     out.append(dict(api="panel_lb", sparse=sparse, num=nums(), sort=False, reduced=False, pos=0,
                                     hist=h, hseed=hseed()))
             else:
@@ -1131,7 +1193,8 @@ def run_family(prop, family, tier, seed, build, impl=None, skip_mc=False, max_la
             out.append(dict(api="freq", sparse=True, num=k1, sort=True, reduced=False, pos=0, tpow=-60))
             out.append(dict(api="freq", sparse=False, num=k1, sort=False, reduced=False, pos=0, tpow=[60, -60][int(rs.randint(0, 2))]))
             if with_panel:
-                for sparse, h in ((True, "fresh"), (True, hist()), (False, hist())):
+                for sparse, h in ((True, "fresh"), (True, "redef:flags" if rs.rand() < 0.5 else hist()),
+                                  (False, "redef:flags" if rs.rand() < 0.5 else hist())):
                     out.append(dict(api="panel_freq", sparse=sparse, num=nums(), sort=True, reduced=False, pos=0,
                                     hist=h, hseed=hseed()))
         return out
